@@ -83,7 +83,7 @@ Record pipe_ans := { pa_res : option (Z * Z); pa_dup : option Z }.
    open: the answers for the pipes of stdout / stderr / stdin (looked at only when the stream is
    requested and the earlier ones succeeded) and the result of vfork (None: failed);
    join/kill/destructor: the result of waitpid (Some status: the child was delivered; None: it failed);
-   read/write: the result of the read()/write() system call; read2: the streams select() reports. *)
+   read/write: the result of the read()/write() system call; read2: the streams poll() reports. *)
 Inductive pop :=
 | POpen (streams : Z) (a_out a_err a_in : pipe_ans) (vf : option Z)
 | PStart (vf : option Z)
